@@ -109,7 +109,8 @@ def model_inputs(engine, model):
         out[p] = concretize(model, v.ty, term)
         note_refs(v.ty, term, 0)
     for g, v in engine.ghost_consts.items():
-        out['ghost:' + g] = concretize(model, v.ty, v.t)
+        if isinstance(g, str):
+            out['ghost:' + g] = concretize(model, v.ty, v.t)
     out['__refs__'] = refs
     return out
 
